@@ -27,7 +27,7 @@ def load_known_findings():
 def _budget(tier):
     if tier == 'thorough':
         return dict(z3_ms=5000, cvc5_s=120, z3_s=120, both=False)
-    return dict(z3_ms=1500, cvc5_s=12, z3_s=12, both=False)
+    return dict(z3_ms=2000, cvc5_s=40, z3_s=40, both=False)
 
 
 def work_function(args):
@@ -263,6 +263,22 @@ def run_property(prop, tier='quick', seed=0, jobs=12):
                     base_out.setdefault('discharged', set()).add(
                         '%s#%s:%s' % (r['func'], r['kind'], r['label']))
         fun_rows.append(row)
+    # property-level structural obligations (e.g. C18: both implementations are bound to one
+    # contract text)
+    extra_rows = []
+    if hasattr(pm, 'extra_checks'):
+        for oid, ok, note in pm.extra_checks(REG):
+            n_obl += 1
+            extra_rows.append({'obligation': oid, 'verdict': 'discharged' if ok else 'FAILED',
+                               'note': note, 'backend': 'structural comparison'})
+            if ok:
+                n_dis += 1
+                by_backend['structural'] = by_backend.get('structural', 0) + 1
+            else:
+                violations.append({'id': oid, 'func': oid.split('#')[0], 'kind': 'same-contract',
+                                   'label': oid.split('#')[-1], 'line': 0, 'note': note,
+                                   'status': 'sat', 'backend': 'structural comparison',
+                                   'time_s': 0.0, 'model': None, 'trace': []})
     if n_obl == 0 and not crashes and not undecided:
         crashes.append((prop, 'zero obligations generated'))
 
@@ -325,7 +341,8 @@ def run_property(prop, tier='quick', seed=0, jobs=12):
             'undecided': [list(x) for x in undecided][:40],
             'checker_failures': [list(x) for x in crashes][:20],
             'violations': vio_lines,
-            'samples': samples,
+            'samples': samples + extra_rows[:4],
+            'structural_checks': extra_rows,
             'slowest': sorted([[r['time_s'], r['id'], r['backend']] for o in outs
                                for r in o['results']], reverse=True)[:8],
             'explanation': 'contract-based deductive verification: VCs generated from the AST '
